@@ -290,7 +290,8 @@ def gen_cli_case(rng, idx, malformed=False, force_entry=None, force_roots=None):
         if rng.random() < 0.15:
             opts += ["--no-acronyms"]
         if rng.random() < 0.1:
-            opts += ["--include-acronyms", "FOO,BAR"]
+            opts += rng.choice([["--include-acronyms", "FOO,BAR"], ["--exclude-acronyms", "API,ID,URL"],
+                                ["--only-acronyms", "FOO,ID"], ["--include-acronyms", "QUX", "--exclude-acronyms", "HTTP"]])
         if rng.random() < 0.15:
             opts += ["--no-plural-variants"]
         if entry != "search" and rng.random() < 0.12:
